@@ -268,7 +268,7 @@ class BaseNode:
                 window=info.window,
                 skip=info.skip,
                 jitter=info.jitter,
-                name=input_name,
+                name=info.name,
             )
 
     @property
